@@ -5557,7 +5557,11 @@ class CodegenCtx:
     def _escape_string(self, value: Union[bytes, str]):
         result = ""
         if type(value) is str:
-            bytes_value = value.encode('utf-8')
+            # strings hold one character per byte (as matched against the input), so they're emitted byte-for-byte
+            try:
+                bytes_value = value.encode('latin-1')
+            except UnicodeEncodeError:
+                raise IllegalDFAStateError("String constant contains a character outside of the byte range 0-255", value)
         else:
             bytes_value = value
         for i in bytes_value:
@@ -5578,10 +5582,7 @@ class CodegenCtx:
         Must ensure value is short enough first.
         """
 
-        if isinstance(value, str):
-            escaped_length = len(value.encode('utf-8'))
-        else:
-            escaped_length = len(value)
+        escaped_length = len(value)
 
         return f"memcpy(state->c.{into.name}, \"{self._escape_string(value)}\", {escaped_length if not into.str_null else escaped_length+1});"
 
